@@ -406,6 +406,12 @@ def run_check(tier, seed):
           "clauses": 0, "samples": [], "crosscheck": 0}
     violations, inconclusive = [], []
     try:
+        # the covering construction for arbitrary admissible sheet maps: kc engine (harness/c05_cover.rs), started
+        # first and left running while the constructors are checked
+        env = dict(os.environ)
+        env["VERIF_OUT"] = str(OUT)
+        kc = subprocess.Popen([sys.executable, str(VERIF / "engine/kc.py"), "check", "C05", "--tier", tier],
+                              cwd=VERIF, env=env, stdout=subprocess.PIPE, stderr=subprocess.STDOUT)
         exe = run_gen(tier, seed, scratch, ev, violations, inconclusive)
         n, k = TIERS[tier]
         n_viol = 0
@@ -426,12 +432,9 @@ def run_check(tier, seed):
             log("VIOLATION property=C05 replay=%s" % rp)
             log("    %s (base %s degrees %s): %s | native: %s" % (v["kind"], v["base"]["ops"], v["base"]["ms"],
                                                                 v["what"][:300], res[:160]))
-        # the covering construction for arbitrary admissible sheet maps: kc engine (harness/c05_cover.rs)
-        env = dict(os.environ)
-        env["VERIF_OUT"] = str(OUT)
-        p = subprocess.run([sys.executable, str(VERIF / "engine/kc.py"), "check", "C05", "--tier", tier],
-                           cwd=VERIF, env=env, stdout=subprocess.PIPE, stderr=subprocess.STDOUT)
-        kc_out = p.stdout.decode(errors="replace")
+        kc_stdout, _ = kc.communicate()
+        p = kc
+        kc_out = kc_stdout.decode(errors="replace")
         for line in kc_out.splitlines():
             if line.startswith(("VIOLATION", "    harness=", "INCONCLUSIVE", "KNOWN-FINDING", "[kc]   ", "[kc] C05")):
                 log(line)
